@@ -1,0 +1,17 @@
+//go:build verif
+
+package kinesisfake
+
+import "net/http"
+
+// VerifNewHandler returns the fake's request handler without starting an HTTP
+// server, so a simulator can serve Kinesis API calls in-process (no sockets).
+func VerifNewHandler() (http.Handler, *Fake) {
+	fk := &Fake{
+		db:              &db{streams: make(map[string]*stream)},
+		getRecordsLimit: 10_000,
+	}
+	return http.HandlerFunc(func(w http.ResponseWriter, r *http.Request) {
+		route(fk, w, r)
+	}), fk
+}
